@@ -51,7 +51,7 @@ var smoothNames = [2]string{"SmoothJoin", "SmoothJoinV2"}
 
 // smoothPoint applies every clause at x. Returns true if x was in the blend
 // zone (outside every operand, within the radius of two or more).
-func smoothPoint(c *vlib.Case, k *kit, ops []sdfG, radius float64, f *smoothForms, x vec) (blend bool) {
+func smoothPoint(c *caseCtx, k *kit, ops []sdfG, radius float64, f *smoothForms, x vec) (blend bool) {
 	n := len(ops)
 	for v := 0; v < 2; v++ {
 		T := k.tag + "." + strings.ToLower(smoothNames[v]) + "."
@@ -247,7 +247,9 @@ func prescribedScene(rng *rand.Rand, k *kit) (ops []sdfG, radius float64, p vec,
 }
 
 func smoothSections(r *vlib.Run, k *kit, nPrescribed, nRandom int) {
-	r.Section("smoothorder"+k.tag, nPrescribed, vlib.SectionOpts{}, func(c *vlib.Case) {
+	r.Section("smoothorder"+k.tag, nPrescribed, vlib.SectionOpts{}, func(c0 *vlib.Case) {
+		c := newCase(c0)
+		defer c.flush()
 		rng := c.Rng
 		ops, radius, p, want := prescribedScene(rng, k)
 		n := len(ops)
@@ -295,7 +297,9 @@ func smoothSections(r *vlib.Run, k *kit, nPrescribed, nRandom int) {
 		}
 	})
 
-	r.Section("smoothrandom"+k.tag, nRandom, vlib.SectionOpts{}, func(c *vlib.Case) {
+	r.Section("smoothrandom"+k.tag, nRandom, vlib.SectionOpts{}, func(c0 *vlib.Case) {
+		c := newCase(c0)
+		defer c.flush()
 		rng := c.Rng
 		T := k.tag + ".smoothrandom."
 		dyadic := rng.Intn(2) == 0
